@@ -1,4 +1,4 @@
-import H2V.Lemmas.ConnCountsPInvD
+import H2V.Lemmas.ConnCountsPInvJ
 /-
   C05 / C18 / C19 — reachable states of the stream layer.
 
@@ -48,6 +48,7 @@ inductive ApiStep : Streams → Streams → Prop
   | refSendInformationalHeaders (s : Streams) (k : Nat) (f : List Hpack.Field) : ApiStep s (s.refSendInformationalHeaders k f).1
   | refSendData (s : Streams) (k len : Nat) (eos : Bool) : ApiStep s (s.refSendData k len eos).1
   | refSendTrailers (s : Streams) (k : Nat) (f : List Hpack.Field) : ApiStep s (s.refSendTrailers k f).1
+  | refSendPushPromise (s : Streams) (parent : Nat) (valid : Bool) (f : List Hpack.Field) : ApiStep s (s.refSendPushPromise parent valid f).1
   | refSendReset (s : Streams) (k : Nat) (r : Reason) : ApiStep s (s.refSendReset k r)
   | refReserveCapacity (s : Streams) (k cap : Nat) : ApiStep s (s.refReserveCapacity k cap)
   | pollCapacity (s : Streams) (k : Nat) (tag : String) : ApiStep s (s.pollCapacity k tag).1
@@ -62,7 +63,7 @@ inductive ApiStep : Streams → Streams → Prop
   | wake (s : Streams) (t : List String) : ApiStep s (s.wake t)
   | clearWakes (s : Streams) : ApiStep s { s with wakes := [] }
 
-theorem ApiStep.evT {s s' : Streams} (h : ApiStep s s') (hA : KeysOK s) : EvT s s' := by
+theorem ApiStep.evT {s s' : Streams} (h : ApiStep s s') (hA : KeysOK s) (hN : NextLocal s) : EvT s s' := by
   cases h with
   | recvHeaders _ h => exact .ev (recvHeaders_ev _ _)
   | recvData _ id p eos pad => exact .ev (recvData_ev _ _ _ _ _)
@@ -92,6 +93,7 @@ theorem ApiStep.evT {s s' : Streams} (h : ApiStep s s') (hA : KeysOK s) : EvT s 
   | refSendInformationalHeaders _ k f => exact .ev (refSendInformationalHeaders_ev _ _ _)
   | refSendData _ k len eos => exact .ev (refSendData_ev _ _ _ _)
   | refSendTrailers _ k f => exact .ev (refSendTrailers_ev _ _ _)
+  | refSendPushPromise _ parent valid f => exact .ev (refSendPushPromise_ev _ hA.fresh hN _ _ _)
   | refSendReset _ k r => exact .ev (refSendReset_ev _ _ _)
   | refReserveCapacity _ k cap => exact .ev (refReserveCapacity_ev _ _ _)
   | pollCapacity _ k tag => exact .ev (pollCapacity_ev _ _ _)
@@ -107,7 +109,8 @@ theorem ApiStep.evT {s s' : Streams} (h : ApiStep s s') (hA : KeysOK s) : EvT s 
 
 /-- the stream state of a freshly built connection -/
 inductive InitS : Streams → Prop
-  | client (g : Conn.Cfg) : InitS (Conn.init g).streams
+  /-- (`client::Builder::initial_stream_id` asserts that the id is odd) -/
+  | client (g : Conn.Cfg) (hodd : g.firstId % 2 = 1) : InitS (Conn.init g).streams
   | server (g : Conn.Cfg) (ecp : Bool) (peerFirst : Bytes) : InitS (Conn.initServer g ecp peerFirst).streams
 
 inductive Reach : Streams → Prop
@@ -119,6 +122,7 @@ inductive Reach : Streams → Prop
 /-- a stream state with an empty store, empty queues and zero counters -/
 structure Blank (s : Streams) : Prop where
   slab : s.store.slab = []
+  ids : s.store.ids = []
   nextKey : s.store.nextKey = 0
   numSend : s.counts.numSendStreams = 0
   numRecv : s.counts.numRecvStreams = 0
@@ -126,6 +130,8 @@ structure Blank (s : Streams) : Prop where
   numRemote : s.counts.numRemoteResetStreams = 0
   numErr : s.counts.numLocalErrorResetStreams = 0
   resetQ : s.recv.pendingResetExpired = []
+  openQ : s.prio.pendingOpen = []
+  next : NextLocal s
 
 theorem Blank.keysOK {s : Streams} (h : Blank s) : KeysOK s :=
   ⟨by rw [h.slab]; exact List.nodup_nil, by intro x hx; rw [h.slab] at hx; cases hx⟩
@@ -135,35 +141,59 @@ theorem Blank.inv1 {s : Streams} (h : Blank s) : Inv1 s :=
    by rw [h.numRecv]; exact Nat.zero_le _, by rw [h.numReset]; exact Nat.zero_le _,
    by rw [h.numRemote]; exact Nat.zero_le _, by intro m _; rw [h.numErr]; exact Nat.zero_le _⟩
 
+theorem Blank.get?_none {s : Streams} (h : Blank s) (k : Nat) : s.store.get? k = none := by
+  unfold Store.get?; rw [h.slab]; rfl
+
+theorem Blank.inv2 {s : Streams} (h : Blank s) : Inv2 s.counts.isServer (fun _ => False) s := by
+  refine ⟨rfl, ?_, ?_, ?_, ?_, ?_, ?_⟩
+  · intro k hk; rw [h.openQ] at hk; cases hk
+  · intro p hp; rw [h.ids] at hp; cases hp
+  · intro k st hst; rw [h.get?_none] at hst; cases hst
+  · intro _ k st hst; rw [h.get?_none] at hst; cases hst
+  · intro _; unfold cntP; rw [h.numSend, h.slab]; rfl
+  · intro x hx; have := h.next x hx; rw [isLocalInit_eq] at this; exact this
+
 theorem InitS.from_blank {s : Streams} (h : InitS s) : ∃ s0, Blank s0 ∧ Ev s0 s := by
   cases h with
-  | client g =>
+  | client g hodd =>
+    have hnl : ∀ x, some g.firstId = some x → (false == (x % 2 == 0)) = true := by
+      intro x hx; cases hx; simp [hodd]
     unfold Conn.init
     dsimp only
     split
     · next sz _ =>
       refine ⟨_, ?_, .trans (cloneHandle_ev _) (setTargetConnectionWindow_ev _ sz)⟩
-      exact ⟨rfl, rfl, rfl, rfl, rfl, rfl, rfl, rfl⟩
+      exact ⟨rfl, rfl, rfl, rfl, rfl, rfl, rfl, rfl, rfl, rfl, hnl⟩
     · refine ⟨_, ?_, cloneHandle_ev _⟩
-      exact ⟨rfl, rfl, rfl, rfl, rfl, rfl, rfl, rfl⟩
+      exact ⟨rfl, rfl, rfl, rfl, rfl, rfl, rfl, rfl, rfl, rfl, hnl⟩
   | server g ecp pf =>
+    have hnl : ∀ x, some 2 = some x → (true == (x % 2 == 0)) = true := by
+      intro x hx; cases hx; rfl
     unfold Conn.initServer
     dsimp only
     split
     · next sz _ =>
       refine ⟨_, ?_, setTargetConnectionWindow_ev _ sz⟩
-      exact ⟨rfl, rfl, rfl, rfl, rfl, rfl, rfl, rfl⟩
+      exact ⟨rfl, rfl, rfl, rfl, rfl, rfl, rfl, rfl, rfl, rfl, hnl⟩
     · refine ⟨_, ?_, .refl _⟩
-      exact ⟨rfl, rfl, rfl, rfl, rfl, rfl, rfl, rfl⟩
+      exact ⟨rfl, rfl, rfl, rfl, rfl, rfl, rfl, rfl, rfl, rfl, hnl⟩
 
-/-- **the counting invariants hold in every reachable state** (as long as no `assert!` has fired) -/
-theorem Reach.inv {s : Streams} (h : Reach s) : KeysOK s ∧ (s.panicked = none → Inv1 s) := by
+/-- **the invariants hold in every reachable state**: keys and the parity of `next_stream_id` always,
+    the counting invariants as long as no `assert!` has fired -/
+theorem Reach.inv {s : Streams} (h : Reach s) :
+    KeysOK s ∧ NextLocal s ∧ (s.panicked = none → Inv1 s ∧ Inv2 s.counts.isServer (fun _ => False) s) := by
   induction h with
   | init hi =>
     obtain ⟨s0, hb, e⟩ := hi.from_blank
-    exact ⟨e.keysOK hb.keysOK, fun hp => e.inv1 hp hb.keysOK hb.inv1⟩
+    refine ⟨e.keysOK hb.keysOK, e.nx.nextLocal hb.next, fun hp => ⟨e.inv1 hp hb.keysOK hb.inv1, ?_⟩⟩
+    rw [e.nx.role]
+    exact e.inv2 _ _ hp hb.keysOK (fun _ _ h => h) hb.inv2
   | step _ hs ih =>
-    have e := hs.evT ih.1
-    exact ⟨e.keysOK ih.1, fun hp => e.inv1 hp ih.1 (ih.2 (e.mono_panic hp))⟩
+    have e := hs.evT ih.1 ih.2.1
+    refine ⟨e.keysOK ih.1, e.nx.nextLocal ih.2.1, fun hp => ?_⟩
+    have hi := ih.2.2 (e.mono_panic hp)
+    refine ⟨e.inv1 hp ih.1 hi.1, ?_⟩
+    rw [e.nx.role]
+    exact e.inv2 _ hp ih.1 hi.2
 
 end H2V.Lemmas.ConnCountsP
